@@ -536,11 +536,13 @@ func searchMain(t *testing.T, scs []Scenario) int {
 			wr.Samples = append(wr.Samples, map[string]interface{}{"run_index": k, "scenario": sc.Name, "class": res.Ctx.Class, "steps": res.Sim.Steps,
 				"sim_time": res.Sim.End.String(), "schedule_hash": fmt.Sprintf("%016x", res.Sim.Hash), "description": res.Ctx.Sample})
 		}
-		if res.Infra != "" {
+		if res.Infra != "" && len(res.Viol) == 0 {
 			wr.Infra = append(wr.Infra, fmt.Sprintf("run %d (%s): %s", k, sc.Name, res.Infra))
 			exit = 2
 			break
 		}
+		// (a harness task stuck *after* a violation was recorded is a consequence
+		// of the broken system under test: the violation is what gets reported)
 		for _, v := range res.Viol {
 			if seenKeys[v.Key] {
 				continue
